@@ -45,6 +45,16 @@ func VerifSetIO(w io.Writer, ex func(int)) (restore func()) {
 	}
 }
 
+// VerifSetIOSplit is VerifSetIO with one writer per stream: what the library writes to its
+// error stream and what it writes to its output stream can then be told apart.
+func VerifSetIOSplit(errW, outW io.Writer, ex func(int)) (restore func()) {
+	oldErr, oldOut, oldExiter := stdErr, stdOut, exiter
+	stdErr, stdOut, exiter = errW, outW, ex
+	return func() {
+		stdErr, stdOut, exiter = oldErr, oldOut, oldExiter
+	}
+}
+
 // VerifTokenize wraps lexer.Tokenize
 func VerifTokenize(spec string) (toks []VerifToken, msg string, pos int, ok bool) {
 	ts, err := lexer.Tokenize(spec)
